@@ -22,7 +22,12 @@ RULE = ('cases = policy files from the expression generator (role, attribute, sy
         'token\'s fields; with/without a default rule; aliases; undefined references; some rules in the legacy list-of-lists spelling) x tokens (the three sample tokens of '
         'the repository, generated project- / domain- / system-scoped tokens with varying roles) x is_admin on/off x with / '
         'without a nested target file x requested rule (none, defined, undefined, helper without colon). Non-trivial = at '
-        'least one verdict is `passed` and one `failed`, or a rule is requested; distinct = distinct (policy, token, target, options).')
+        'least one verdict is `passed` and one `failed`, or a rule is requested; distinct = distinct (policy, token, target, options). '
+        'Order stratum: about a third of the policy files additionally carry families of 2..7-segment names built on one stem, in which one name '
+        'continues the stem with `:` and its siblings continue it with a character that sorts below `:` (- . / digit ! # + , $ & *) or above it '
+        '(; = @ _ ~ letter, non-ASCII letter), plus names with an empty segment, a trailing or leading colon, many segments, other letter case, and '
+        'colon-less siblings; the expected listing is Python\'s sorted() over the names that contain a colon, compared line by line; such names '
+        'are also requested singly.')
 ASSUMPTIONS = ['credentials: token dict + role names + user_id + project_id + system_scope (all) + is_admin; target: the '
                'flattened target file, or user_id/project_id of the token (the derivation the tool documents)',
                'http(s) leaves are not generated (the tool needs an enforcer config for them; transport is C16\'s subject)',
@@ -32,7 +37,8 @@ LEVEL_TEXT = ('Seeded sampling of (policy, token, target, options); every printe
 LEVEL_NOTE = 'trusted: the harness\'s derivation of credentials/target from the files; a real Enforcer as decision oracle'
 PLAN = {'quick': dict(shards=4, wall=60), 'thorough': dict(shards=16, wall=400)}
 MIN = {'evaluations': 500, 'verdict_lines': 1500, 'passed_lines': 200, 'failed_lines': 200, 'system_tokens': 50,
-       'requested_rule_runs': 100}
+       'requested_rule_runs': 100, 'order_name_listings': 100, 'listings_sibling_below_colon': 80, 'listings_sibling_above_colon': 80,
+       'listings_empty_segment': 30, 'listings_case_only_pair': 30, 'order_name_requested': 10}
 ANCHORS = ['oslo_policy.shell:tool', 'oslo_policy.shell:_try_rule', 'oslo_policy.shell:flatten', 'oslo_policy.policy:Enforcer.enforce']
 REQUIRED_ANCHORS = ['oslo_policy.shell:tool']
 N = {'quick': 4000, 'thorough': 80000}
@@ -42,6 +48,12 @@ LEAVES = ['role:admin', 'role:member', 'role:x', 'user_id:%(user_id)s', 'project
           'user.domain.id:%(a.b)s', 'roles:admin', 'project_id:%(target.project.id)s', 'after-nested:%(a.z)s', "'n':%(target.name)s", 'user.id:u1', "'u1':%(user_id)s", 'is_admin:False', 'project.domain.id:dd',
           'system_scope:%(scope)s', 'user_id:%(a.c.d)s']
 _SAMPLES = []
+# policy-name material for the order stratum: code points on both sides of ':' (0x3a); no blanks, quotes, parentheses or '%'
+# (names must survive JSON / YAML and the one-line-per-verdict output unchanged)
+BELOW_COLON = list('-./!#+,$&*0123456789')
+ABOVE_COLON = list(';=@_~AZazQm') + ['é', 'ß', 'Ж', 'λ']       # and four non-ASCII letters
+SEGMENTS = ['api', 'os', 'net', 'v2', 'get', 'list', 'add', 'x', 'a', 'B', 'Flavor', 'flavor', 'compute', 'servers', '_p', 'os-ext', 'v2.1',
+            'été', 'Net', 'GET', '0', 'z9']
 
 
 def sample_tokens():
@@ -61,6 +73,33 @@ def gen_rule(rnd, depth, leaves):
     if r < 0.5:
         return 'not ' + gen_rule(rnd, depth - 1, leaves)
     return '(' + (' %s ' % rnd.choice(['and', 'or'])).join(gen_rule(rnd, depth - 1, leaves) for _ in range(rnd.randint(2, 3))) + ')'
+
+
+def gen_order_names(rnd):
+    """Families of names whose sorted() order depends on how ':' compares with its neighbours in code-point order."""
+    seg = lambda: rnd.choice(SEGMENTS)
+    names = []
+    nfam = rnd.randint(1, 2)
+    most = 2 if nfam == 1 else 1                    # keeps a file at 4..9 additional names
+    for _ in range(nfam):
+        stem = ':'.join(seg() for _ in range(rnd.randint(1, 2)))
+        tail = ':'.join(seg() for _ in range(rnd.choice([1, 1, 1, 2, 2, 5])))
+        fam = [stem + ':' + tail]
+        for c in rnd.sample(BELOW_COLON, rnd.randint(1, most)) + rnd.sample(ABOVE_COLON, rnd.randint(1, most)):
+            # the sibling continues the stem's last segment: `net:get` / `net-ext:get` / `net_ext:get`, `v2:list` / `v21:list`
+            fam.append(stem + c + rnd.choice(['', seg(), seg()]) + ':' + rnd.choice([tail, tail, seg()]))
+        opt = [stem + ':',                                        # trailing colon
+               stem + '::' + tail,                                # an empty segment
+               ':' + stem + ':' + tail,                           # leading colon
+               stem + ':' + rnd.choice(BELOW_COLON) + tail,       # the empty segment's rival: `a::b` / `a:-b`
+               (stem + ':' + tail).swapcase(), stem.upper() + ':' + tail, stem + ':' + tail.upper(),
+               stem + ':' + tail + ':' + ':'.join(seg() for _ in range(rnd.randint(1, 4))),
+               stem + rnd.choice(BELOW_COLON + ABOVE_COLON) + seg(),   # may hold no colon: then it must not be listed
+               stem]
+        fam.extend(rnd.sample(opt, rnd.randint(1, most + 1)))
+        names.extend(fam)
+    names = list(dict.fromkeys(names))
+    return names
 
 
 def gen_case(rnd):
@@ -102,8 +141,21 @@ def gen_case(rnd):
         if rnd.random() < 0.15:
             # a target file is given, but it holds nothing (or only empty mappings): that is an EMPTY target, not "no file"
             target = rnd.choice([{}, {'target': {'project': {}}}, {'empty': {}}, {'a': {'b': {}}}])
-    return dict(rules=rules, token=tok, sample=sample, target=target, is_admin=rnd.random() < 0.5,
+    case = dict(rules=rules, token=tok, sample=sample, target=target, is_admin=rnd.random() < 0.5,
                 rule=rnd.choice([None, None, None, 'svc:a', 'ghost:x', 'helper', 'alias:x']), fmt=rnd.choice(['json', 'yaml']))
+    if rnd.random() < 0.35:
+        # order stratum: names for which the place of ':' in code-point order decides the sorted order of the listing
+        extra = gen_order_names(rnd)
+        items = list(rules.items())
+        for nme in extra:
+            body = gen_rule(rnd, rnd.randint(0, 2), LEAVES + ['rule:helper'])
+            items.insert(rnd.randint(0, len(items)), (nme, body))     # anywhere in the file, not at its sorted place
+        case['rules'] = rules = dict(items)
+        if case['rule'] is not None and rnd.random() < 0.25:
+            case['rule'] = rnd.choice(extra)
+        if case['fmt'] == 'yaml' and not files.yaml_roundtrips(rules):
+            case['fmt'] = 'json'                    # the file must say what `rules` says
+    return case
 
 
 def flatten(d, pk=''):
@@ -132,6 +184,37 @@ def closure_text(rules, key):
         text += ' ' + body
         todo.extend(re.findall(r'rule:([^\s()]+)', body))
     return text
+
+
+def count_order_features(ctx, requested, keys):
+    """Coverage of the order stratum, computed from the names themselves (never from how they were generated)."""
+    if requested:
+        if requested.endswith(':') or '::' in requested or re.search(r'[^:\w]|[^\x00-\x7f]', requested):
+            ctx.count('order_name_requested')
+        return
+    below = above = False
+    for a in keys:
+        for b in keys:
+            i = 0
+            while i < len(a) and i < len(b) and a[i] == b[i]:
+                i += 1
+            if 0 < i < len(a) and i < len(b) and a[i] == ':':
+                # a = p + ':' + ..., b = p + c + ...: the place of c relative to ':' decides which comes first
+                if b[i] < ':':
+                    below = True
+                else:
+                    above = True
+    if below or above:
+        ctx.count('order_name_listings')
+    if below:
+        ctx.count('listings_sibling_below_colon')
+    if above:
+        ctx.count('listings_sibling_above_colon')
+    if any('::' in k or k.endswith(':') or k.startswith(':') for k in keys):
+        ctx.count('listings_empty_segment')
+    low = [k.lower() for k in keys]
+    if len(set(low)) < len(low):
+        ctx.count('listings_case_only_pair')
 
 
 def check_case(ctx, case):
@@ -198,6 +281,7 @@ def check_case(ctx, case):
         if None in want:
             ctx.unconstrained('library-raises-for-this-input')
             return
+        count_order_features(ctx, case['rule'], keys)
         if got != want:
             diff_keys = [w.split(': ', 1)[1] for g, w in zip(got, want) if g != w] if len(got) == len(want) else []
             if len(got) != len(want) or [g.split(': ', 1)[-1] for g in got] != [w.split(': ', 1)[-1] for w in want]:
@@ -228,6 +312,7 @@ def run(ctx):
             ctx.sample(dict(case, token='<generated %s>' % sorted(case['token']['token'])) if case['sample'] is None else
                        dict(case, token='<sample token %d>' % case['sample']))
     ctx.stratum('random', exhaustive=False)
+    ctx.stratum('order-sensitive-names', exhaustive=False)
 
 
 def replay(ctx, case):
